@@ -169,6 +169,14 @@ impl C01 {
                                     ctx.violation(format!("mismatch:{k}{suffix}"), detail(json!({"differing_fields": d, "decoded": exp_json(&v.tx), "payload": hex::encode(&c.payload)})));
                                 }
                             }
+                            // "contains exactly": an element of the denoted signer / input sets written twice in the
+                            // payload is an addition the set view of the decoder would hide
+                            let mut rep: Vec<&String> = v.facts.duplicates.iter().filter(|f| matches!(f.as_str(), "required_signers" | "inputs" | "reference_inputs" | "collateral")).collect();
+                            rep.sort();
+                            rep.dedup();
+                            for f in rep {
+                                ctx.violation(format!("mismatch:repeated:{f}{suffix}"), detail(json!({"repeated_elements_in": f, "payload": hex::encode(&c.payload)})));
+                            }
                             if v.facts.network_id != Some(w.network as u64) {
                                 ctx.violation(format!("mismatch:network-id{suffix}"), detail(json!({"network_id": v.facts.network_id})));
                             }
